@@ -269,6 +269,7 @@ def run(ctx: Ctx) -> None:
         ctx.violation(b["sig"], f"{b['sig']['what']}: {b['detail'][:300]}", {"case": b["case"], "detail": b["detail"]})
     constants_and_defaults(ctx)
     between_kinds(ctx)
+    coercion_through_containers(ctx)
     ctx.evaluations += ctx.replayed
     ctx.exhaustive = bool(os.environ.get("VERIF_C13_EXHAUSTIVE2")) and not quick
 
@@ -382,6 +383,28 @@ def between_kinds(ctx: Ctx) -> None:
     keyword-only parameters, TypedDict keys, SQLAlchemy columns"""
     from .c17 import converters
     converters(ctx)
+
+
+def coercion_through_containers(ctx: Ctx) -> None:
+    """'values are coerced recursively through nested models, Optional, iterables and dicts': for model pairs placed as elements,
+    dict values, dict KEYS and Optional payloads every converted value must be of the destination's static type (Convert.tla
+    Coercible; runner and value oracle shared with C14)"""
+    from . import c14
+    m = lambda n: {"k": "model", "a": [], "v": [n]}  # noqa: E731
+    i, s_ = {"k": "int", "a": [], "v": []}, {"k": "str", "a": [], "v": []}
+    out: dict = {"bad": [], "machinery": [], "runs": 0, "refused": 0, "created": 0}
+    pairs = [(m("m1"), m("m2")), (m("m1"), m("m1")), ({"k": "list", "a": [m("m1")], "v": []}, {"k": "list", "a": [m("m2")], "v": []}),
+             ({"k": "dict", "a": [m("m1"), i], "v": []}, {"k": "dict", "a": [m("m2"), i], "v": []}),
+             ({"k": "dict", "a": [m("m1"), m("m1")], "v": []}, {"k": "dict", "a": [m("m2"), m("m2")], "v": []}),
+             ({"k": "dict", "a": [s_, m("m1")], "v": []}, {"k": "Mapping", "a": [s_, m("m2")], "v": []})]
+    for s, d in pairs:
+        for c in ("direct", "optional", "list", "dictval"):
+            c14.run_pair({"s": s, "d": d, "ctx": c, "coercible": True, "asis": False}, out)
+    if out["machinery"] or out["refused"]:
+        raise MachineryError(f"coercion_through_containers: {out['machinery'][:1]} refused={out['refused']}")
+    for b in out["bad"]:
+        ctx.violation({**b["sig"], "via": "containers"}, f"{b['sig']['what']}: {b['detail'][:260]}", {"case": b["case"], "detail": b["detail"]})
+    ctx.replayed += out["runs"]
 
 
 def replay(path: str) -> int:
